@@ -41,10 +41,12 @@ THOROUGH_T = (("T6", ("EX_A", "R1", "R2", "DM_B")), ("T6", ("DEAD", "X1", "X2", 
 def c19_blocked(E, templates=QUICK_T):
     m, tid = _model(E, templates)
     open_ex = E.flag("open_exchanges")
-    rl = E.pick("reaction_list", ["None", "objects", "ids"])
+    rl = E.pick("reaction_list", ["None", "objects", "ids", "empty"])
     ids_all = [r.id for r in m.reactions]
     if rl == "None":
         arg, ids = None, ids_all
+    elif rl == "empty":
+        arg, ids = [], []           # nothing asked for: nothing reported
     elif rl == "objects":
         ids = [ids_all[-1], ids_all[1], ids_all[2]]
         arg = [m.reactions.get_by_id(i) for i in ids]
@@ -133,7 +135,7 @@ def c19_fastcc(E, templates=(("T2", ("R1",)), ("T2", ("EX_A",)), ("T3", ("R2",))
 HARNESSES = [
     H("c19_blocked", c19_blocked, tiers=("quick",), quick=dict(max_paths=8000, time_budget=80),
       bounds="T6 (dead end, blocked branch, isolated cycle), T3, T2 with 3 symbolic reactions each (others at template bounds); "
-             "bounds span zero, finite bounds 0 or |b|>=1e-2; reaction_list None/objects/ids; open_exchanges on/off"),
+             "bounds span zero, finite bounds 0 or |b|>=1e-2; reaction_list None/objects/ids/empty; open_exchanges on/off"),
     H("c19_blocked_thorough", lambda E: c19_blocked(E, THOROUGH_T), tiers=("thorough",),
       thorough=dict(max_paths=300000, time_budget=600), bounds="T6,T3,T2,T5 with 4-5 symbolic reactions"),
     H("c19_fastcc", c19_fastcc, tiers=("quick",), quick=dict(max_paths=3000, time_budget=60), witness_every=3,
